@@ -1,0 +1,33 @@
+//go:build verif
+
+// Package verifclock is the clock seam used by product code rewritten at check
+// time (time.Now/Since/Until -> verifclock.Now/Since/Until). Without an
+// installed source it is the wall clock.
+package verifclock
+
+import (
+	"sync/atomic"
+	"time"
+)
+
+var nowFn atomic.Pointer[func() time.Time]
+
+// Set installs (or, with nil, removes) the clock source.
+func Set(f func() time.Time) {
+	if f == nil {
+		nowFn.Store(nil)
+		return
+	}
+	nowFn.Store(&f)
+}
+
+func Now() time.Time {
+	if f := nowFn.Load(); f != nil {
+		return (*f)()
+	}
+	return time.Now()
+}
+
+func Since(t time.Time) time.Duration { return Now().Sub(t) }
+
+func Until(t time.Time) time.Duration { return t.Sub(Now()) }
